@@ -284,6 +284,17 @@ def step (st : St) (cmd : String) (args : List String) : St × String :=
     | some tg =>
       (st, joinOr ((nodesOf (w.trieOf tg).tree 100000).map fun e => s!"{pathStr e.1}={fmtAnn (annotate e.2)}") ";")
     | none => bad
+  -- nodes() at raw level: the same loop over the database as it is now (root hash + encoded bodies, cache of raw bodies)
+  | "nodesloopd", [tg] =>
+    match parseTarget tg with
+    | some tg =>
+      let fmtD (a : HexD.AnnD) : String :=
+        s!"{kindStr a.kind} subs={joinOr (a.subs.map pathStr) ","} value={toHex a.value} suffix={pathStr a.suffix} raw={toHex (rlp a.raw)}"
+      (st, match HexD.nodesOfD keccak w.base (w.trieOf tg).root 100000 with
+        | .ok l => joinOr (l.map fun e => s!"{pathStr e.1}={fmtD e.2}") ";"
+        | .error (.missing h used) => s!"exn MissingTraversalNode {toHex h} {pathStr used}"
+        | .error _ => "exn Invalid")
+    | none => bad
   | "preorder", [tg] =>
     match parseTarget tg with
     | some tg =>
